@@ -50,7 +50,7 @@ func (exec) Do(line string) string {
 			return strconv.Itoa(varint.EncodedSize(n))
 		}
 	case "u8", "u16", "u32", "u64":
-		b := hxlib.UnHex(f[1])
+		b := window(hxlib.UnHex(f[1]))
 		var v uint64
 		var n int
 		var err error
@@ -77,7 +77,7 @@ func (exec) Do(line string) string {
 	case "pl":
 		return hxlib.Hex(varint.PrependLength(hxlib.UnHex(f[1])))
 	case "gnb":
-		blk, tot, err := varint.GetNextBlock(hxlib.UnHex(f[1]))
+		blk, tot, err := varint.GetNextBlock(window(hxlib.UnHex(f[1])))
 		if err != nil {
 			return errClass(err)
 		}
@@ -103,6 +103,29 @@ func meaning(b []byte) (uint64, bool) {
 	return x, len(b) > 0
 }
 
+// refPut is an independent reference encoder: base-128, least significant group first, continuation bit on
+// all but the last byte, no padding.
+func refPut(n uint64) []byte {
+	var out []byte
+	for n >= 0x80 {
+		out = append(out, byte(n)|0x80)
+		n >>= 7
+	}
+	return append(out, byte(n))
+}
+
+// window returns the input as a window into a larger buffer (spare capacity filled with plausible bytes),
+// so that code which looks beyond len(input) is observable: "consuming only bytes present in the input".
+func window(in []byte) []byte {
+	buf := make([]byte, len(in), len(in)+24)
+	copy(buf, in)
+	spare := buf[len(in):cap(buf)]
+	for i := range spare {
+		spare[i] = byte(i + 1)
+	}
+	return buf
+}
+
 var widthMax = map[string]uint64{"8": 1<<8 - 1, "16": 1<<16 - 1, "32": 1<<32 - 1, "64": 1<<64 - 1}
 
 // monitor: the property statement read literally on implementation outputs.
@@ -122,6 +145,17 @@ func monitor(c hxlib.Case, outs []string) (vs []hxlib.Violation) {
 			continue
 		}
 		switch f[0] {
+		case "p8", "p16", "p32", "p64":
+			// "the packed form is the shortest standard base-128 varint": there is exactly one such form
+			n, _ := strconv.ParseUint(f[1], 10, 64)
+			if want := hxlib.Hex(refPut(n)); o != want {
+				add(i, "C10:not-standard-form:"+f[0], fmt.Sprintf("Pack(%d) = %s, the shortest standard base-128 form is %s", n, o, want))
+			}
+		case "pl":
+			d := hxlib.UnHex(f[1])
+			if want := hxlib.Hex(append(refPut(uint64(len(d))), d...)); o != want {
+				add(i, "C10:prepend-length", fmt.Sprintf("PrependLength(%s) = %s, want %s", f[1], o, want))
+			}
 		case "u8", "u16", "u32", "u64":
 			in := hxlib.UnHex(f[1])
 			if strings.HasPrefix(o, "ok ") {
@@ -175,13 +209,16 @@ func monitor(c hxlib.Case, outs []string) (vs []hxlib.Violation) {
 				} else if string(in[tot-len(blk):tot]) != string(blk) {
 					add(i, "C10:block-wrong-bytes", "block is not the bytes directly before the reported end")
 				}
-				if i > 0 {
-					pf := strings.Fields(c.Lines[i-1])
-					if pf[0] == "pl" && strings.HasPrefix(f[1], outs[i-1]) {
-						want := fmt.Sprintf("ok %s %d", pf[1], len(outs[i-1])/2)
-						if o != want {
-							add(i, "C10:block-roundtrip", fmt.Sprintf("got %q want %q", o, want))
-						}
+			}
+			// round trip: GetNextBlock(PrependLength(d) ++ rest) must return exactly d — any other outcome,
+			// including an error, violates the statement
+			if i > 0 {
+				pf := strings.Fields(c.Lines[i-1])
+				if pf[0] == "pl" && strings.HasPrefix(f[1], outs[i-1]) {
+					dl := len(hxlib.UnHex(pf[1]))
+					want := fmt.Sprintf("ok %s %d", pf[1], dl+len(varint.Pack64(uint64(dl))))
+					if o != want {
+						add(i, "C10:block-roundtrip", fmt.Sprintf("GetNextBlock(PrependLength(%s)++rest) = %q, want %q", pf[1], o, want))
 					}
 				}
 			}
@@ -350,8 +387,8 @@ func cmp(a, b uint64) string {
 
 func main() {
 	hxlib.Main(&hxlib.Harness{
-		Prop: "C10",
-		Rule: "cases are groups of ≤64 varint-package calls: pack/unpack pairs with random trailing bytes and every truncation for all 2^8 values, 2^16 values (thorough: all; quick: boundaries + every 7th), every 7-bit-group boundary ±2 and seeded random 32/64-bit values; every byte string of length ≤2 (quick) / ≤3 (thorough) through all four Unpack* and GetNextBlock; over-long encodings; length prefixes at all boundary values up to 2^64-1. A case is non-trivial if it contains a multi-byte encoding or an error outcome; distinct by the hash of its op lines.",
+		Prop:     "C10",
+		Rule:     "cases are groups of ≤64 varint-package calls: pack/unpack pairs with random trailing bytes and every truncation for all 2^8 values, 2^16 values (thorough: all; quick: boundaries + every 7th), every 7-bit-group boundary ±2 and seeded random 32/64-bit values; every byte string of length ≤2 (quick) / ≤3 (thorough) through all four Unpack* and GetNextBlock; over-long encodings; length prefixes at all boundary values up to 2^64-1. A case is non-trivial if it contains a multi-byte encoding or an error outcome; distinct by the hash of its op lines.",
 		Generate: generate,
 		NewExec:  func(*hxlib.Run) hxlib.Exec { return exec{} },
 		Monitor:  monitor,
